@@ -9,7 +9,11 @@
 package c10
 
 import (
+	"fmt"
+	"sort"
+	"strings"
 	"testing"
+	"testing/synctest"
 
 	"verif/kit"
 	"verif/schedx"
@@ -35,8 +39,114 @@ func deliveryJudge(rw *schedx.ReconnectWorld, ex *schedx.Exec) {
 	}
 }
 
+// relayConc: in the converged line A - B - C the relay B forwards two routed
+// requests AT THE SAME TIME (the switch and the router run one handler per CPU):
+// A's request to C and C's request to A (or two requests of A). Oracle: both
+// requests are handed to their destination and answered, every frame the relay
+// emits is one of the frames it received with nothing but TTL / flow flags
+// changed (= the outcome of one of the serial orders), no worker panics. The frame
+// package is compiled against the scheduler shims too, so the buffer pools the two
+// handlers share are scheduling points.
+func relayConc(t *testing.T, name string, peer bool, bubble bool) schedx.Conc {
+	build := func() *schedx.Instance {
+		rw := schedx.NewReconnectWorld(pool[:3])
+		w := rw.W
+		type req struct {
+			from   *kit.Node
+			raw    []byte
+			notify <-chan struct{}
+			desc   string
+		}
+		var reqs []*req
+		send := func(from, to *kit.Node) {
+			before := len(w.InFlight)
+			notify, _, err := from.Router().PingPong.Send(to.Identity().IP, peer, 0)
+			if err != nil || len(w.InFlight) != before+1 {
+				panic(fmt.Sprintf("harness: request %s->%s not sent: %v", from.Name, to.Name, err))
+			}
+			fl := w.Drop(len(w.InFlight) - 1)
+			if fl.To != rw.B {
+				panic("harness: request does not go through the relay")
+			}
+			reqs = append(reqs, &req{from: from, raw: fl.Bytes, notify: notify, desc: from.Name + "->" + to.Name})
+		}
+		send(rw.A, rw.C)
+		send(rw.C, rw.A)
+		in := &schedx.Instance{}
+		for _, r := range reqs {
+			r := r
+			in.Threads = append(in.Threads, []schedx.Op{{Name: "relay forwards " + r.desc, Do: func() { w.Inject(r.from, rw.B, r.raw) }}})
+		}
+		logStart := len(w.Log)
+		norm := func(x []byte) string {
+			b := append([]byte(nil), x...)
+			b[1], b[2] = 0, 0 // TTL, flow flags
+			return string(b)
+		}
+		in.Observe = func() string {
+			// randomness-free: every emitted frame is named by the received request it equals.
+			var out []string
+			for _, fl := range w.Log[logStart:] {
+				if fl.From != rw.B {
+					continue
+				}
+				which := "a frame that equals none of the received ones"
+				for i, r := range reqs {
+					if norm(fl.Bytes) == norm(r.raw) {
+						which = fmt.Sprintf("request %d (%s) unchanged", i, r.desc)
+					}
+				}
+				out = append(out, fmt.Sprintf("%s<-%s", fl.To.Name, which))
+			}
+			sort.Strings(out)
+			return strings.Join(out, "\n")
+		}
+		in.Check = func(ex *schedx.Exec) {
+			for _, p := range w.Panics {
+				ex.Bad("panic", "worker panic: %s", p)
+			}
+			// what the relay emitted must be what it received (TTL and flow flags aside).
+			want := map[string]bool{}
+			for _, r := range reqs {
+				b := append([]byte(nil), r.raw...)
+				b[1], b[2] = 0, 0
+				want[kit.Hash(b)] = true
+			}
+			for _, fl := range w.Log[logStart:] {
+				if fl.From != rw.B {
+					continue
+				}
+				b := append([]byte(nil), fl.Bytes...)
+				b[1], b[2] = 0, 0
+				if !want[kit.Hash(b)] {
+					ex.Bad("relay-changed-frame", "the relay emitted a frame (%d bytes to %s) that differs from every frame it received in more than TTL and flow flags", len(fl.Bytes), fl.To.Name)
+				}
+			}
+			w.Run(kit.FIFO, 100)
+			for _, r := range reqs {
+				select {
+				case <-r.notify:
+				default:
+					ex.Bad("request-not-answered", "the routed request %s, forwarded by the relay while it forwarded another request, was not answered", r.desc)
+				}
+			}
+		}
+		return in
+	}
+	c := schedx.Conc{Name: "relay forwards two requests at once/" + name, Build: build}
+	if bubble {
+		c.Wrap = func(f func()) { synctest.Test(t, func(t *testing.T) { f() }) }
+	} else {
+		c.Wrap = func(f func()) {
+			t.Run("bubble", func(t *testing.T) { synctest.Test(t, func(t *testing.T) { f() }) })
+		}
+	}
+	return c
+}
+
 func flapConcs(t *testing.T, bubble bool) []schedx.Conc {
 	return []schedx.Conc{
+		relayConc(t, "A->C | C->A", false, bubble),
 		schedx.Flap(t, "link replaced: close(old) | register(new)", pool[:3], false, bubble, deliveryJudge),
 		schedx.Flap(t, "link replaced: close(old) | register(new) | reader", pool[:3], true, bubble, deliveryJudge),
 	}
